@@ -388,9 +388,20 @@ func C08(c *core.Ctx) {
 	c.Rule("C08-R5", "schema.Object keeps the document's own $schema: unmarshalling assigns it only from the input bytes, marshalling inserts it", 2)
 	schemaObjectRule(c, "C08-R5")
 	c08RawJSON(c)
+	c08ValidateReadOnly(c)
 
 	// R6: the canonical string encoder leaves nothing out
 	c08Segments(c)
+	// R10: the canonical form keeps every array element (shared with C07-R9)
+	c.Rule("C08-R10", "the canonical form the digest is taken of keeps every array element (shared with C07-R9)", 1)
+	sub := core.NewCtx("C07", c.Tier, c.Seed, c.P, c.VerifDir)
+	sub.Quiet = true
+	c07ArrayComplete(sub)
+	for _, o := range sub.Obligations() {
+		if o.Rule == "C07-R9" {
+			c.ObAt("C08-R10", o.Key, o.Pos, o.OK, o.Msg)
+		}
+	}
 }
 
 // mustPassBeforeSuccess checks that the call has been executed on every path to
